@@ -59,6 +59,7 @@ CFG = {
     "prefix": {"swift": {"prefix": "Pre"}, "kotlin": {"prefix": "Pre"}},
     "packages": {"kotlin": {"package": "com.example.app", "module_name": "mod"}, "scala": {"package": "com.example.app", "module_name": "types"},
                  "go": {"package": "main", "uppercase_acronyms": ["ID", "URL"], "no_pointer_slice": True}},
+    "packages_single": {"kotlin": {"package": "app", "module_name": "mod"}, "scala": {"package": "app", "module_name": "types"}, "go": {"package": "app"}},
     "swift_defaults": {"swift": {"default_decorators": ["Sendable", "Identifiable"], "default_generic_constraints": ["Sendable"], "codablevoid_constraints": ["Equatable"]}},
     "header": {l: {"version_header": True} for l in common.LANGS},
     "folder": {},
